@@ -77,9 +77,13 @@ Min(S) == CHOOSE x \in S : \A y \in S : x <= y
 Rogues == {c \in DOMAIN conns : conns[c].kind # "legit"}
 LegitSent(b) == \E c \in DOMAIN conns : conns[c].to = b /\ conns[c].kind = "legit"
 
-\* the listener of attempt b goes away: whatever is still in its backlog is reset
+\* The listener of attempt b goes away: whatever is still in its backlog is reset.  The
+\* accept loop may already have taken the next connection out of the backlog: a rogue is
+\* then read and closed all the same, a legitimate one is matched and never handed to
+\* anybody (the statement is silent about it: "orphan" = open or closed).
+Gone(cn) == IF cn.kind = "legit" THEN "orphan" ELSE "closed"
 CloseListener(cs, b) ==
-  [c \in DOMAIN cs |-> IF cs[c].to = b /\ cs[c].st = "queued" THEN [cs[c] EXCEPT !.st = "closed"] ELSE cs[c]]
+  [c \in DOMAIN cs |-> IF cs[c].to = b /\ cs[c].st = "queued" THEN [cs[c] EXCEPT !.st = Gone(cs[c])] ELSE cs[c]]
 
 \* Dial returned: every context of every attempt is cancelled, listeners close,
 \* a read the accept loop is stuck in fails and that connection is closed; a
@@ -88,7 +92,8 @@ CloseListener(cs, b) ==
 TearDown(cs, keep) ==
   [c \in DOMAIN cs |->
      IF c = keep THEN [cs[c] EXCEPT !.st = "returned"]
-     ELSE IF cs[c].st \in {"queued", "reading"} THEN [cs[c] EXCEPT !.st = "closed"]
+     ELSE IF cs[c].st = "queued" THEN [cs[c] EXCEPT !.st = Gone(cs[c])]
+     ELSE IF cs[c].st = "reading" THEN [cs[c] EXCEPT !.st = "closed"]
      ELSE IF cs[c].st = "held" THEN [cs[c] EXCEPT !.st = "orphan"]
      ELSE cs[c]]
 TearDownBrokers(bc, keep) ==
